@@ -14,11 +14,13 @@ pub mod c10;
 pub mod c11;
 pub mod c12;
 pub mod c13;
+pub mod c14;
 pub mod c15;
 pub mod c16;
 pub mod c17;
 pub mod c18;
 pub mod c19;
+pub mod c20;
 pub mod seeds;
 
 /// Run the check for a property; returns the process exit code.
@@ -37,11 +39,13 @@ pub fn run(prop: &str, tier: Tier, seed: u64) -> Option<i32> {
         "C11" => c11::run(tier, seed),
         "C12" => c12::run(tier, seed),
         "C13" => c13::run(tier, seed),
+        "C14" => c14::run(tier, seed),
         "C15" => c15::run(tier, seed),
         "C16" => c16::run(tier, seed),
         "C17" => c17::run(tier, seed),
         "C18" => c18::run(tier, seed),
         "C19" => c19::run(tier, seed),
+        "C20" => c20::run(tier, seed),
         _ => return None,
     })
 }
@@ -60,11 +64,13 @@ pub fn replay(prop: &str, witness: &serde_json::Value) -> Option<i32> {
         "C11" => c11::replay(witness),
         "C12" => c12::replay(witness),
         "C13" => c13::replay(witness),
+        "C14" => c14::replay(witness),
         "C15" => c15::replay(witness),
         "C16" => c16::replay(witness),
         "C17" => c17::replay(witness),
         "C18" => c18::replay(witness),
         "C19" => c19::replay(witness),
+        "C20" => c20::replay(witness),
         _ => return None,
     })
 }
